@@ -77,6 +77,9 @@ func registerIOModels() {
 		c := ex.newCell(rt)
 		c.Kids[0].V = a[0]
 		c.Kids[1].V = mkConst(64, 0)
+		if sv, ok := a[0].(*SliceVal); ok && sv.Blob != nil && sv.Blob.Kind == "filecontent" && ex.vfs != nil {
+			ex.vfs.streams[c] = &vstream{chunks: sv.Blob.Msg.([]*vchunk)}
+		}
 		return &Ptr{C: c}
 	}
 	intercepts["(*bytes.Buffer).Bytes"] = func(ex *Exec, fn *ssa.Function, a []Value) Value {
